@@ -266,6 +266,116 @@ def crowd_load(task):
     return out
 
 
+def line_schedules(task):
+    """LINE-GRAIN schedules.  Loads.tla interleaves loads at their file operations and treats everything a load does between two of them
+    (planning the selection, decoding) as thread-local -- an assumption about the code, not a theorem.  This binds it: after a HISTORY of
+    H different selections (whatever a loader memoises per selection is full and its oldest entry is the one loaded first), thread T1
+    re-loads the first selection and is parked before its k-th SOURCE LINE inside the ceos_alos2 package (sys.settrace in that thread);
+    T2 then loads a selection never loaded before -- from another image (no common lock) or from the same one -- to its end, or until it
+    blocks on T1's lock; T1 is released.  Both results must equal the single-threaded values; nothing may raise."""
+    import os as _os
+    import sys as _sys
+    import threading
+
+    import ceos_alos2
+
+    from harness import imgrun, oracle, product
+
+    n_, p_ = 64, 3
+    b = product.build_product(level=task["level"], images=(("HH", None, n_, p_), ("HV", None, n_, p_)), seed=task["seed"], pixel_special=False)
+    url = imgrun.put_on_fs(b, "local", f"c19line_{task['seed']}_{task['H']}")
+    out = {"task": task, "bad": [], "n": 0, "lines": 0}
+    pkg = _os.path.dirname(_os.path.abspath(ceos_alos2.__file__)) + _os.sep
+    try:
+        tree = ceos_alos2.open_alos2(url, backend_options=dict(use_cache=False, records_per_chunk=4))
+        das = [tree[f"imagery/{im['group']}/data"] for im in b.images]
+        # H distinct windows of HH: single lines first, then 2-line, 3-line ... windows
+        wins = [(a, a + w) for w in range(1, 6) for a in range(0, n_ - w + 1)][:task["H"]]
+        fresh = iter([(a, a + w) for w in range(7, 40) for a in range(0, n_ - w + 1)])
+
+        def history():
+            for a, z in wins:
+                das[0].isel(rows=slice(a, z)).values
+
+        def t1_body(k, count, parked, gate, res):
+            def local(frame, event, arg):
+                if event == "line":
+                    count[0] += 1
+                    if count[0] == k:
+                        parked.set()
+                        gate.wait(60)
+                return local
+
+            def tracer(frame, event, arg):
+                return local if frame.f_code.co_filename.startswith(pkg) else None
+
+            rows = list(range(*wins[0]))
+            _sys.settrace(tracer)
+            try:
+                v = das[0].isel(rows=slice(*wins[0])).values
+                _sys.settrace(None)
+                res["T1"] = oracle.pixels_match(v, b.images[0], rows=rows)
+            except BaseException as e:  # noqa: B902
+                _sys.settrace(None)
+                res["T1"] = f"raised {type(e).__name__}: {str(e)[:100]}"
+            finally:
+                parked.set()
+
+        def t2_body(which, win, res):
+            rows = list(range(*win))
+            try:
+                res["T2"] = oracle.pixels_match(das[which].isel(rows=slice(*win)).values, b.images[which], rows=rows)
+            except BaseException as e:  # noqa: B902
+                res["T2"] = f"raised {type(e).__name__}: {str(e)[:100]}"
+
+        # dry run: number of package lines of T1's load
+        history()
+        cnt = [0]
+        ev = threading.Event()
+        r0 = {}
+        t = threading.Thread(target=t1_body, args=(-1, cnt, ev, ev, r0), daemon=True)
+        t.start()
+        t.join(120)
+        total = cnt[0]
+        out["lines"] = total
+        if r0.get("T1"):
+            out["bad"].append(("line-grain:dry-run", f"single-threaded re-load after a history of {task['H']} selections: {r0['T1']}"))
+            return out
+        dense = task["dense"]
+        ks = [k for k in range(1, total + 1) if k <= dense or (k - dense) % max(1, (total - dense) // task["sparse"]) == 0]
+        for k in ks:
+            for which in task["others"]:
+                history()
+                win = next(fresh)
+                cnt, parked, gate, res = [0], threading.Event(), threading.Event(), {}
+                t1 = threading.Thread(target=t1_body, args=(k, cnt, parked, gate, res), daemon=True)
+                t1.start()
+                if not parked.wait(60):
+                    out["bad"].append(("line-grain:stuck", f"T1 did not reach line {k} of {total} within 60 s"))
+                    return out
+                t2 = threading.Thread(target=t2_body, args=(which, win, res), daemon=True)
+                t2.start()
+                t2.join(0.15 if which == 0 else 20)   # (same image: T2 may legitimately wait for T1's lock)
+                gate.set()
+                t1.join(120)
+                t2.join(120)
+                out["n"] += 1
+                if t1.is_alive() or t2.is_alive():
+                    out["bad"].append(("line-grain:deadlock", f"history {task['H']}, T1 parked before its package line {k}/{total}, T2 = {b.images[which]['group']}{list(win)}: did not complete within 120 s"))
+                    return out
+                for who in ("T1", "T2"):
+                    if res.get(who):
+                        out["bad"].append((f"line-grain:{who}:{'other' if which else 'same'}-image",
+                                           f"history of {task['H']} selections; T1 re-loads HH{list(wins[0])} and is parked before its package line {k}/{total}; T2 loads "
+                                           f"{b.images[which]['group']}{list(win)} (never loaded before); T1 released: {who} {res[who]}"))
+                if out["bad"]:
+                    return out
+    finally:
+        _sys.settrace(None)
+        imgrun.drop_from_fs(url, "local")
+    return out
+
+
 class _Gate:
     """parks ONE thread at its k-th file-system operation until released (the yield points of the tracing filesystem)"""
 
@@ -414,7 +524,7 @@ def gc_stress(task):
 
 def run_any(item):
     kind, t = item
-    return {"stall": stall_load, "crowd": crowd_load, "sched": run_schedules, "mid": copy_mid_load, "gc": gc_stress}[kind](t)
+    return {"stall": stall_load, "crowd": crowd_load, "sched": run_schedules, "mid": copy_mid_load, "gc": gc_stress, "line": line_schedules}[kind](t)
 
 
 def scripts_from_tlc(cfg, n, depth, seed):
@@ -487,7 +597,10 @@ def body(chk):
     # long-running stall / crowd tasks go first so that they overlap with the schedules
     mids = [dict(level=("1.5", "1.1")[i % 2], seed=chk.seed + 340 + i) for i in range(2)]
     gcs = [dict(level=("1.5", "1.1")[i % 2], seed=chk.seed + 350 + i, fs=("local", "vtrace")[i % 2], threads=1 + i % 2, iterations=150 if nq else 1500) for i in range(2)]
-    mixed = [("stall", t) for t in stalls] + [("crowd", t) for t in crowds] + [("gc", t) for t in gcs] + [("mid", t) for t in mids] + [("sched", t) for t in tasks]
+    # line-grain schedules after histories of H selections (typical capacities of a bounded memo: powers of two)
+    lines_ = [dict(level=("1.5", "1.1")[i % 2], seed=chk.seed + 360 + i, H=H, dense=60 if nq else 400, sparse=6 if nq else 40, others=[1] if (nq and H != 64) else [1, 0])
+              for i, H in enumerate((16, 64, 128) if nq else (8, 16, 32, 64, 100, 128, 256))]
+    mixed = [("stall", t) for t in stalls] + [("crowd", t) for t in crowds] + [("gc", t) for t in gcs] + [("mid", t) for t in mids] + [("line", t) for t in lines_] + [("sched", t) for t in tasks]
     mixed_res = checklib.pmap(run_any, mixed, chk.scratch)
     stall_res = [r for (k, _), r in zip(mixed, mixed_res) if k == "stall"]
     crowd_res = [r for (k, _), r in zip(mixed, mixed_res) if k == "crowd"]
@@ -500,6 +613,14 @@ def body(chk):
         chk.count(res["n"], f"copy-mid-load:{res['task']['level']}")
         for key, msg in res["bad"][:2]:
             chk.violation(key, msg, {"task": res["task"]})
+    for res in [r for (k, _), r in zip(mixed, mixed_res) if k == "line"]:
+        chk.count(res["n"], f"line-grain:H={res['task']['H']}:{res['task']['level']}")
+        if not res["bad"] and res["lines"] < 20:
+            raise checklib.Machinery(f"line-grain schedules: the tracer saw only {res['lines']} package lines in one load")
+        for key, msg in res["bad"][:2]:
+            chk.violation(key, msg, {"task": res["task"]})
+    chk.rule_extra.append("line-grain: T1 parked before its k-th source line inside the package (k = 1..60 dense, then sampled; thorough 1..400) after histories of "
+                          "16 / 64 / 128 (thorough 8..256) different selections, T2 loads a new selection of the other / the same image meanwhile")
     for res in stall_res:
         chk.count(2, f"stall:{res['task']['hold']}:{res['task']['via']}")
         for who, msg in res["bad"]:
